@@ -52,6 +52,7 @@ type AdvCfg struct {
 	FailHTLC     bool        `json:"fail_htlc,omitempty"`
 	Spends       []SpendKnob `json:"spends,omitempty"`
 	Requests     []ReqKnob   `json:"requests,omitempty"`
+	Polls        []PollKnob  `json:"polls,omitempty"`
 }
 
 type OpenKnobs struct {
@@ -82,6 +83,16 @@ type SpendKnob struct {
 	Witness  string `json:"witness"` // see advSpend
 	Sequence int64  `json:"sequence"`
 	By       string `json:"by,omitempty"` // "", "third"
+}
+
+// PollKnob: a peer-sync message sent by the adversary (or the third party).
+type PollKnob struct {
+	AtMs    int    `json:"at_ms"`
+	Request bool   `json:"request"`           // request_poll instead of poll
+	Version uint64 `json:"version"`           // advertised protocol version
+	Rate    int64  `json:"rate"`              // marker value for btc swap-out rate
+	From    int    `json:"from,omitempty"`    // 0 = the adversarial peer, 2 = third party
+	Garbage bool   `json:"garbage,omitempty"` // undecodable payload
 }
 
 type ReqKnob struct {
@@ -220,6 +231,10 @@ func (p *advPeer) start() {
 	if cfg.Initiate {
 		w.Sim.After(ms(max(cfg.StartMs, 1500)), "adv", "initiate", p.initiate)
 	}
+	for i := range cfg.Polls {
+		pk := cfg.Polls[i]
+		w.Sim.After(ms(pk.AtMs), "adv", fmt.Sprintf("poll#%d", i), func() { p.sendPoll(&pk) })
+	}
 	for i := range cfg.Requests {
 		rk := cfg.Requests[i]
 		w.Sim.After(ms(rk.AtMs), "adv", fmt.Sprintf("request#%d", i), func() { p.sendRequest(&rk) })
@@ -246,6 +261,24 @@ func (p *advPeer) initiate() {
 		typ = MsgSwapInRequest
 	}
 	p.send(typ, map[string]interface{}{"protocol_version": s.version, "swap_id": s.id, "network": network, "asset": asset, "scid": s.scid, "amount": s.amount, "pubkey": p.pubkeyFor(s.key), "acceptable_premium": cfg.Limit})
+}
+
+func (p *advPeer) sendPoll(pk *PollKnob) {
+	typ := MsgPoll
+	if pk.Request {
+		typ = MsgRequestPoll
+	}
+	from := p.id
+	if pk.From == 2 {
+		from = 2
+	}
+	body := map[string]interface{}{"version": pk.Version, "assets": []string{"btc", "lbtc"}, "peer_allowed": true, "btc_swap_out_premium_rate_ppm": pk.Rate, "lbtc_swap_out_premium_rate_ppm": 1000}
+	b, _ := json.Marshal(body)
+	if pk.Garbage {
+		b = []byte("{not json")
+	}
+	p.w().Observe(&Obs{Node: from, Kind: "adv.poll", Msg: &MsgObs{From: from, To: p.real, Type: typ, Payload: b}, Num: pk.Rate})
+	p.w().Net.Send(from, p.w().Nodes[p.real].Pubkey, b, typ)
 }
 
 func (p *advPeer) sendRequest(rk *ReqKnob) {
@@ -531,7 +564,7 @@ func (p *advPeer) openAndAnnounce(s *advSwap) {
 	var rawHex, txid, blindHex string
 	realIdx := 0
 	if s.chain == "btc" {
-		rawHex, txid, realIdx = p.buildBtcOpening(pk, amount, k)
+		rawHex, txid, realIdx = p.buildBtcOpening(pk, amount, neg.OpeningSat, k)
 	} else {
 		rawHex, txid, realIdx, blindHex = p.buildLiquidOpening(pk, amount, k, neg)
 	}
@@ -596,7 +629,7 @@ func (p *advPeer) openAndAnnounce(s *advSwap) {
 	}
 }
 
-func (p *advPeer) buildBtcOpening(pk []byte, amount uint64, k OpenKnobs) (string, string, int) {
+func (p *advPeer) buildBtcOpening(pk []byte, amount, negotiated uint64, k OpenKnobs) (string, string, int) {
 	tx := wire.NewMsgTx(2)
 	in := wire.NewTxIn(wire.NewOutPoint(ptrHash(randHash()), 0), nil, [][]byte{bytes.Repeat([]byte{0x30}, 71), p.newKey().PubKey().SerializeCompressed()})
 	tx.AddTxIn(in)
@@ -606,7 +639,7 @@ func (p *advPeer) buildBtcOpening(pk []byte, amount uint64, k OpenKnobs) (string
 	switch k.Decoy {
 	case "sameamount":
 		h := sha256.Sum256([]byte("decoy"))
-		outs = append([]*wire.TxOut{wire.NewTxOut(int64(amount), append([]byte{0x00, 0x20}, h[:]...))}, outs...)
+		outs = append([]*wire.TxOut{wire.NewTxOut(int64(negotiated), append([]byte{0x00, 0x20}, h[:]...))}, outs...)
 	case "samescript":
 		outs = append([]*wire.TxOut{wire.NewTxOut(546, pk)}, outs...)
 	}
